@@ -34,6 +34,7 @@ type Op struct {
 type Case struct {
 	Stream hx.Hex // a well-formed stream built by the reference encoder
 	Ops    []Op   // operations applied to the database decoded from Stream
+	Giant  int    // > 0: the stream is gen.GiantESL(Giant) (tens of MiB, rebuilt when the case runs) instead of Stream
 }
 
 func typeOf(s string) guid.G {
@@ -87,6 +88,10 @@ func genOp(t *rapid.T) Op {
 }
 
 func genCase(t *rapid.T) Case {
+	if den := uint64(3000); gen.Chance(t, "giant", 1, den) {
+		// sizes the format allows and the other cases never reach: any certificate size, any count, any total
+		return Case{Giant: rapid.IntRange(1, 3).Draw(t, "giantkind")}
+	}
 	lists := gen.ESLStreamHuge(6).Draw(t, "stream")
 	c := Case{}
 	if rapid.Bool().Draw(t, "withops") {
@@ -250,6 +255,11 @@ func checkStream(stream []byte) (signature.SignatureDatabase, []esl.List, error)
 }
 
 func checkCase(c Case) error {
+	if c.Giant > 0 {
+		c.Stream = esl.Encode(gen.GiantESL(c.Giant))
+		c.Ops = nil
+		hx.Class(fmt.Sprintf("stream_of_%d_MiB", len(c.Stream)>>20))
+	}
 	db, want, err := checkStream(c.Stream)
 	if err != nil {
 		return err
